@@ -310,3 +310,112 @@ func VerifC08_Hist_2_1_2L1() { verifC08Hist(2, 1, 2, 1) }
 func VerifC08_Hist_2_2_1()   { verifC08Hist(2, 2, 1, 4294967295) }
 func VerifC08_Hist_3_1_2()   { verifC08Hist(3, 1, 2, 2) }
 func VerifC08_Hist_L0()      { verifC08Hist(2, 1, 2, 0) }
+
+// Several percentiles per run, fractional ones included: the configured list holds two thresholds
+// (a concrete pair chosen by a symbolic index, inserted in either order, so both visiting orders
+// of the threshold map are covered symbolically; natively the order is Go's random one and the
+// oracle is order-free). Every threshold's sub-metrics must be those of ITS k lowest / highest
+// values: nothing may leak from one threshold's iteration into the next.
+var verifC08Pairs = [][2]float64{{90, -90}, {50, 99.9}, {12.5, -37.5}, {-100, 100}, {0.1, 75}, {-62.5, -25}, {1, -1}}
+
+func verifC08ExpectPct(p float64, n int, sorted [6]float64, dis gostatsd.TimerSubtypes) []verifPct {
+	absp := math.Abs(p)
+	k := n
+	if n > 1 {
+		k = int(math.Floor(absp*float64(n)/100 + 0.5))
+	}
+	if k == 0 {
+		return nil
+	}
+	sp := strconv.Itoa(int(p))
+	var psum, psumsq, bound float64
+	if n == 1 {
+		psum, psumsq, bound = sorted[0], sorted[0]*sorted[0], sorted[0]
+	} else if p > 0 {
+		for i := 0; i < k; i++ {
+			psum += sorted[i]
+			psumsq += sorted[i] * sorted[i]
+		}
+		bound = sorted[k-1]
+	} else {
+		for i := n - k; i < n; i++ {
+			psum += sorted[i]
+			psumsq += sorted[i] * sorted[i]
+		}
+		bound = sorted[n-k]
+	}
+	pmean := psum / float64(k)
+	if n == 1 {
+		pmean = sorted[0]
+	}
+	var exp []verifPct
+	if !dis.CountPct {
+		exp = append(exp, verifPct{"count_" + sp, float64(k)})
+	}
+	if !dis.MeanPct {
+		exp = append(exp, verifPct{"mean_" + sp, pmean})
+	}
+	if !dis.SumPct {
+		exp = append(exp, verifPct{"sum_" + sp, psum})
+	}
+	if !dis.SumSquaresPct {
+		exp = append(exp, verifPct{"sum_squares_" + sp, psumsq})
+	}
+	if p > 0 {
+		if !dis.UpperPct {
+			exp = append(exp, verifPct{"upper_" + sp, bound})
+		}
+	} else if !dis.LowerPct {
+		exp = append(exp, verifPct{"lower_" + sp, bound})
+	}
+	return exp
+}
+
+func verifC08Multi(n int) {
+	pi := nondetIntIn(0, len(verifC08Pairs)-1)
+	swap := nondetBool()
+	d := nondetBool()
+	vals := make([]float64, n)
+	var sorted [6]float64
+	for i := 0; i < 6; i++ {
+		sorted[i] = 1e300
+	}
+	for i := range vals {
+		vals[i] = nondetFloat64()
+		verifAssume(vals[i] > -1000 && vals[i] < 1000)
+		sorted[i] = vals[i]
+	}
+	sorted = verifSortN(sorted)
+	pair := verifC08Pairs[pi]
+	if swap {
+		pair[0], pair[1] = pair[1], pair[0]
+	}
+	var dis gostatsd.TimerSubtypes
+	dis.CountPct, dis.SumSquaresPct, dis.LowerPct = d, d, d
+	dis.MeanPct = !d
+	a := NewMetricAggregator([]float64{pair[0], pair[1]}, 0, 0, 0, 0, dis, 0)
+	a.now = func() time.Time { return time.Unix(100, 0) }
+	mm := gostatsd.NewMetricMap(false)
+	mm.Timers["t"] = map[string]gostatsd.Timer{"": {Values: vals, SampledCount: float64(n), Timestamp: 10}}
+	a.ReceiveMap(mm)
+	a.Flush(10 * time.Second)
+	t := a.metricMap.Timers["t"][""]
+	exp := append(verifC08ExpectPct(pair[0], n, sorted, dis), verifC08ExpectPct(pair[1], n, sorted, dis)...)
+	verifAssert(len(t.Percentiles) == len(exp), "two thresholds: number of percentile sub-metrics")
+	for _, e := range exp {
+		found := 0
+		for _, got := range t.Percentiles {
+			if got.Str == e.name {
+				found++
+				verifAssert(verifEqR(got.Float, e.val), "two thresholds: sub-metric value is that of its own threshold's k lowest / highest values")
+			}
+		}
+		verifAssert(found == 1, "two thresholds: each expected sub-metric reported exactly once")
+	}
+	verifReach("multi")
+}
+
+func VerifC08_Multi1() { verifC08Multi(1) }
+func VerifC08_Multi2() { verifC08Multi(2) }
+func VerifC08_Multi3() { verifC08Multi(3) }
+func VerifC08_Multi4() { verifC08Multi(4) }
